@@ -1983,6 +1983,16 @@ func (ex *Exec) callValue(st *State, fv Value, args []Value, in *ssa.Call, pos t
 		if ex.inInit && f.Fn.Name() == "init" && f.Fn.Pkg != nil && f.Fn.Pkg != st.top().fn.Pkg {
 			return true
 		}
+		if rn, ok := ex.cfg.Redirect[name]; ok {
+			if rf := findFunc(ex.prog, ex.cfg.Pkg, rn); rf != nil {
+				ex.intr["REDIRECT:"+name+"->"+rn] = true
+				st.stubbed = true
+				f = FuncV{Fn: rf}
+				name = rf.String()
+			} else {
+				panic("redirect target not found: " + rn)
+			}
+		}
 		if mn, ok := modelFuncs[name]; ok {
 			if mf := ex.modelFunc(mn); mf != nil {
 				ex.intr["MODEL:"+name] = true
